@@ -266,7 +266,8 @@ theorem iterStep_TInv (n : Nat) (s : S) (h : TInv s) : TInv (iterStep n s) := by
 /-- resolutions come from `format.AllowedResolution` (MetricMetaValue.RestoreCachedInfo, Config.ValidateConfigSource) -/
 def OpOk : Op → Prop
   | .ev _ mk _ res _ _ => mk = .normal → res ∈ allowedResolutions
-  | .am _ res _ => res ∈ allowedResolutions
+  | .am _ res _ _ => res ∈ allowedResolutions
+  | .rc hw hwSlow => hw ∈ allowedResolutions ∧ hwSlow ∈ allowedResolutions
   | _ => True
 
 theorem resolutionOf_allowed (s : S) (mk : MK) (res : Nat) (hc : CfgOk s) (h : mk = .normal → res ∈ allowedResolutions) :
@@ -289,7 +290,8 @@ theorem step_TInv (s : S) (op : Op) (hop : OpOk op) (h : TInv s) : TInv (step s 
   cases op with
   | ev e mk ts res hash drop =>
     exact bump_TInv _ (applyEv_TInv _ _ _ _ _ _ _ (resolutionOf_allowed s mk res h.2.2 hop) h)
-  | am ts res hash =>
+  | rc hw hwSlow => exact ⟨h.1, h.2.1, hop⟩
+  | am ts res hash scr =>
     exact bump_TInv _ (applyEv_TInv _ _ _ _ _ _ _ hop (accept_TInv _ _ _ _ _ _ _ statusRes_allowed h))
   | flush nowMs => exact flush_TInv _ _ h
   | drain => exact h
@@ -513,7 +515,8 @@ theorem flushAll_Cons (s : S) (h : Cons s) : Cons (flushAll s) := by
 theorem step_Cons (s : S) (op : Op) (h : Cons s) : Cons (step s op) := by
   cases op with
   | ev e mk ts res hash drop => exact evStep_Cons _ _ _ _ _ _ _ h
-  | am ts res hash => exact amStep_Cons _ _ _ _ h
+  | am ts res hash scr => exact amStep_Cons _ _ _ _ h
+  | rc hw hwSlow => exact h
   | flush nowMs => exact flush_Cons _ _ h
   | drain => exact h
   | stop => exact h
@@ -832,6 +835,25 @@ theorem resolution_hash_ignores_scratch_prefix (H : Bytes → Nat) (scratch₁ s
     (originalHash H scratch₁ metric ov).2 = H (marshal metric ov) ∧ (originalHash H scratch₁ metric ov).1 = marshal metric ov := by
   simp [originalHash, marshalAppend]
 
+/-- **Ingestion-path independence.** ApplyMetric computes the same resolution hash for a caller that supplies a scratch buffer
+    (receivers) and for one that does not (internal/stats system metrics writer): the hash is never skipped. -/
+theorem resolution_hash_same_with_or_without_scratch (H : Bytes → Nat) (res : Nat) (scratch : Bytes) (metric : Nat) (ov : List Bytes) :
+    applyMetricHash H res none metric ov = applyMetricHash H res (some scratch) metric ov ∧
+    (res ≠ 1 → applyMetricHash H res none metric ov = H (marshal metric ov)) := by
+  unfold applyMetricHash
+  constructor
+  · split
+    · rfl
+    · simp [originalHash, marshalAppend]
+  · intro h; simp [h, originalHash, marshalAppend]
+
+/-- the effective resolution of hardware metrics follows the applied (remote) config: fast metrics use its
+    hardware-metric-resolution, slow ones its hardware-slow-metric-resolution -/
+theorem resolution_after_remote_config (s : S) (hw hwSlow res : Nat) :
+    resolutionOf (remoteConfig s hw hwSlow) .hw res = hw ∧ resolutionOf (remoteConfig s hw hwSlow) .hwslow res = hwSlow ∧
+    resolutionOf (remoteConfig s hw hwSlow) .normal res = res ∧ resolutionOf (remoteConfig s hw hwSlow) .none res = 1 :=
+  ⟨rfl, rfl, rfl, rfl⟩
+
 /-- hence the marshalled bytes that are hashed (and so the hash, whatever function it is) agree between any two agents -/
 theorem resolution_hash_input_independent (metric : Nat) (c₁ c₂ : List (Bytes × Int)) (tags₁ tags₂ : List (Nat × Bytes))
     (hp : tags₁.Perm tags₂) (hn : (tags₁.map (·.1)).Nodup) (H : Bytes → Nat) :
@@ -870,7 +892,7 @@ example : Pinned → (1000003 : Nat) ≠ 0 ∧ 1000003 ≤ 1000000 + F ∧ 99999
 example : Pinned → slotOf (clampTs 999000 1000000) 5 0 999998 ≠ canonSlot 999000 5 0 := by decide
 
 example : Pinned → OpOk (.ev .counter .normal 1000003 5 4294967295 0) := by intro _ _; decide
-example : Pinned → OpOk (.am 1000003 60 7) := by intro _; show 60 ∈ allowedResolutions; decide
+example : Pinned → OpOk (.am 1000003 60 7 false) := by intro _; show 60 ∈ allowedResolutions; decide
 
 /-- a small history with an on-time low-resolution row, a late row, a future-clamped row (which also emits its ingestion
     status), a back-pressure stall, a pause that opens a gap (a dropped event), a long sleep (jump-ahead of 3 laps), an
